@@ -28,14 +28,21 @@ import random
 from . import known, tlc
 
 LABELS = {"MCLabels14": ["a", "b", "ab", "*", "a*", "*a", "a*b", "**", "xn--a", "xn--*", "", "A", "XN--*", "XN--a"],
+          "MCLabels12": ["a", "b", "ab", "*", "a*", "*a", "a*b", "**", "xn--a", "xn--*", "", "A"],
           "MCLabels8": ["a", "b", "*", "a*", "**", "xn--a", "", "A"],
           "MCLabels6": ["a", "*", "*a", "xn--a", "", "A"],
           "MCLabels5": ["a", "*", "a*", "xn--a", ""]}
-TRLABELS = {"MCLabels14": "TrLabels14", "MCLabels8": "TrLabels8", "MCLabels6": "TrLabels6", "MCLabels5": "TrLabels5"}
+TRLABELS = {"MCLabels14": "TrLabels14", "MCLabels12": "TrLabels12", "MCLabels8": "TrLabels8", "MCLabels6": "TrLabels6", "MCLabels5": "TrLabels5"}
 # canonical lower-case literals, used verbatim as the "plain" spelling (3 is the IPv4-mapped form of 1)
 ADDRS = {1: "10.0.0.1", 2: "fe80::1", 3: "::ffff:a00:1", 4: "10.0.0.2", 5: "2001:db8::5", 6: "192.168.1.9",
          7: "::1"}
-NSHARD = 16
+NSHARD = 16          # number of emission / replay shards of the thorough tier (a partition, not a process count)
+
+
+def jobs():
+    """Process budget: VERIF_JOBS or the number of CPUs; every pool of this check is sized from it."""
+    import os
+    return max(1, int(os.environ.get("VERIF_JOBS") or os.cpu_count() or 4))
 
 BASE = """CONSTANTS Labels <- {labels}
   MaxLabels = {ml}
@@ -237,6 +244,14 @@ def judge(doc, labels="MCLabels5", ml=1):
     return bad, {k: d[:4] for k, d in done.items()}
 
 
+def _trim(lst, n=40):
+    """Bound what a shard sends back WITHOUT letting cases of a recorded class (clause with a "/" suffix) crowd out
+    anything else: both kinds are capped separately."""
+    plain = [x for x in lst if "/" not in x[0]]
+    classed = [x for x in lst if "/" in x[0]]
+    return plain[:n] + classed[:n]
+
+
 # ----------------------------------------------------------------------------------------- pairs
 
 VIAS = ("raw", "wrap", "cn")
@@ -296,7 +311,8 @@ def _pair_shard(args):
     st["tally"] = [sum(d[i] for d in done.values()) for i in range(4)]
     st["ntraces"] = len(st["traces"])
     st["distinct"] = r.distinct
-    st["bad"] = st["bad"][:20]
+    st["bad"] = _trim(st["bad"])
+    st["verdicts"] = _trim(st["verdicts"])
     del st["traces"]
     return st
 
@@ -380,8 +396,8 @@ def _list_replay(args):
     st["tally"] = [sum(d[i] for d in done.values()) for i in range(4)]
     st["ntraces"] = len(st["traces"])
     del st["traces"]
-    st["bad"] = st["bad"][:40]
-    st["verdicts"] = st["verdicts"][:40]
+    st["bad"] = _trim(st["bad"])
+    st["verdicts"] = _trim(st["verdicts"])
     return st
 
 
@@ -457,7 +473,7 @@ def _rand_list_shard(args):
         q = tr["cases"][pos - 1]
         verdicts.append((c, {"kind": "list", "entries": [entries[i - 1] for i in tr["san"]], "host": hosts[q[0] - 1],
                              "cn": cns[q[1] - 1] if q[1] else [], "on": q[2], "api": q[3]}))
-    return {"calls": calls, "ntraces": len(traces), "verdicts": verdicts[:40], "nontriv": nontriv,
+    return {"calls": calls, "ntraces": len(traces), "verdicts": _trim(verdicts), "nontriv": nontriv,
             "tally": [sum(d[i] for d in done.values()) for i in range(4)], "odd": list(ODD)}
 
 
@@ -552,7 +568,7 @@ def _fp_judge(traces, dgs, ders):
     bad, done = judge({"blobs": [{a: list(d[a]) for a, _ in ALGS} for d in dgs], "traces": traces})
     verdicts = [(c, {"kind": "fp", "der": ders[traces[tid - 1]["blob"] - 1].hex(),
                      "pin": "".join(traces[tid - 1]["cases"][pos - 1][0])}) for tid, pos, c, _ in bad]
-    return {"verdicts": verdicts[:40], "ntraces": len(traces),
+    return {"verdicts": _trim(verdicts), "ntraces": len(traces),
             "tally": [sum(d[i] for d in done.values()) for i in range(4)]}
 
 
@@ -610,8 +626,9 @@ def _report(rep, findings, clause, case, what):
     if f:
         rep.known.append((f["id"], f["what"]))
         rep.extra["known_cases"] = rep.extra.get("known_cases", 0) + 1
-        if rep.extra["known_cases"] <= 2:
-            rep.sample({"known_finding": f["id"], "case": describe(case)}, cap=8)
+        ks = rep.extra.setdefault("known_finding_samples", {})
+        if len(ks.setdefault(f["id"], [])) < 2:
+            ks[f["id"]].append(describe(case))
     else:
         rep.violation(clause, what + ": " + describe(case), case)
 
@@ -630,7 +647,7 @@ def _tlc_job(args):
     deviations must break exactly this clause (and the counter-example must show `needle`)."""
     kind, name, spec, plan, invs, props, view, workers, needle = args
     if kind == "check":
-        r = tlc.run("MC_HostMatch", cfg(spec, invs, props, view=view, **plan), workers=workers, heap="4g", timeout=7200)
+        r = tlc.run("MC_HostMatch", cfg(spec, invs, props, view=view, **plan), workers=workers, heap="3g", timeout=7200)
         return kind, name, plan, r
     r = tlc.run("MC_HostMatch", cfg(spec, invs, **plan), workers=1, expect_fail=True, heap="2g")
     if r.violated != list(invs) or (needle or "") not in r.out:
@@ -659,9 +676,11 @@ def run(rep):
                        "a bracketed literal handed to the raw match_hostname is not an IP host (latitude, HostMatch.tla "
                        "RefKind); a commonName never counts for an IP host"]
     nsh = 2 if quick else NSHARD
-    w1 = 2 if quick else "auto"      # tiny state spaces: a small JVM starts faster than 16 workers
+    J = jobs()
+    tpw = max(1, J // 4)                 # stage-1 JVMs running next to the shard processes
+    w1 = 2 if quick else max(2, J // 4)  # workers of one stage-1 JVM (quick: tiny state spaces, a small JVM starts faster)
     pair_plans = ([dict(labels="MCLabels14", ml=2), dict(labels="MCLabels6", ml=3)] if quick else
-                  [dict(labels="MCLabels14", ml=3), dict(labels="MCLabels5", ml=4)])
+                  [dict(labels="MCLabels14", ml=2), dict(labels="MCLabels12", ml=3), dict(labels="MCLabels5", ml=4)])
     list_plan = dict(ms=2, re="MCEntriesQ", rh="MCHostsQ") if quick else dict(ms=3, re="MCEntries", rh="MCHosts")
     small_list_plan = dict(ms=2, re="MCEntriesQ", rh="MCHostsQ")
     fp_plan = dict(fd=2, fs=8) if quick else dict(fd=2, fs=1)
@@ -691,13 +710,13 @@ def run(rep):
     # ---- stage 1 jobs (MATCHER |= RULES), run in helper threads next to the emission / replay shards.
     # FpSpec uses one worker: with a VIEW hiding the depth counter only strict BFS order makes the reached set
     # deterministic (a pin first met at a larger depth would otherwise cut its successors off).
-    jobs = [("check", "PairsSpec", "PairsSpec", plan, PAIR_INVS, (), None, w1, None) for plan in pair_plans]
-    jobs.append(("check", "ListsSpec", "ListsSpec", list_plan, LIST_INVS, (), None, w1, None))
-    jobs.append(("check", "FpSpec", "FpSpec", fp_plan, FP_INVS, ["FpCaseColonBlind"], "FpView", 1, None))
-    jobs.append(("expect", "PairsSpec", "PairsSpec", dict(labels="MCLabels14", ml=1), ["PairMatcherRejectsForbidden"],
+    s1jobs = [("check", "PairsSpec", "PairsSpec", plan, PAIR_INVS, (), None, w1, None) for plan in pair_plans]
+    s1jobs.append(("check", "ListsSpec", "ListsSpec", list_plan, LIST_INVS, (), None, w1, None))
+    s1jobs.append(("check", "FpSpec", "FpSpec", fp_plan, FP_INVS, ["FpCaseColonBlind"], "FpView", 1, None))
+    s1jobs.append(("expect", "PairsSpec", "PairsSpec", dict(labels="MCLabels14", ml=1), ["PairMatcherRejectsForbidden"],
                  (), None, 1, '"X", "N"'))
-    jobs.append(("expect", "ListsSpec", "ListsSpec", small_list_plan, ["ListAcceptsStrict"], (), None, 1, '"*", "*"'))
-    jobs.append(("expect", "ListsSpec", "ListsSpec", small_list_plan, ["ListRejectsForbidden"], (), None, 1, None))
+    s1jobs.append(("expect", "ListsSpec", "ListsSpec", small_list_plan, ["ListAcceptsStrict"], (), None, 1, '"*", "*"'))
+    s1jobs.append(("expect", "ListsSpec", "ListsSpec", small_list_plan, ["ListRejectsForbidden"], (), None, 1, None))
 
     # which of the recorded deviations does this tree still have?  The emitted MATCHER predictions follow it (so a
     # fix: commit leaves no drift); the verdicts never depend on it.
@@ -707,8 +726,9 @@ def run(rep):
     kd = {(): "NoDefects", ("ABORT",): "OnlyAbort", ("ACECASE",): "OnlyAceCase", ("ABORT", "ACECASE"): "AllDefects"}[tuple(present)]
     rep.extra["recorded_deviations_present_in_tree"] = present
 
-    with mp.Pool(NSHARD) as pool, ThreadPoolExecutor(len(jobs) + 1) as tp:
-        s1 = [tp.submit(_tlc_job, j) for j in jobs]
+    rep.extra["process_budget"] = J
+    with mp.Pool(max(1, min(NSHARD, J - tpw))) as pool, ThreadPoolExecutor(tpw) as tp:
+        s1 = [tp.submit(_tlc_job, j) for j in s1jobs]
         # ---- everything that does not depend on another result is submitted at once
         pplans = [dict(plan, k=nsh, kd=kd) for plan in pair_plans]
         pair_f = [[pool.apply_async(_pair_shard, ((plan, s),)) for s in range(nsh)] for plan in pplans]
